@@ -27,18 +27,23 @@ FILES = {
     "esf/exs.py": ["C11"],
     "esf/result.py": ["C17", "C15"],
     "sf.py": ["C14", "C10", "C16"],
-    "runner.py": ["C06", "C20", "C14"],
+    "xs.py": ["C11", "C14", "C16"],
+    "runner.py": ["C06", "C11", "C20", "C14"],
     "output.py": ["C15", "C17", "C20"],
     "coefficient_functions/__init__.py": ["C06", "C12", "C07", "C02"],
     "coefficient_functions/coupling_constants.py": ["C02", "C13"],
     "coefficient_functions/kernels.py": ["C02", "C13", "C07"],
     "coefficient_functions/light/kernels.py": ["C02", "C13", "C04", "C07"],
-    "coefficient_functions/heavy/kernels.py": ["C09", "C02", "C07"],
-    "coefficient_functions/asy/kernels.py": ["C08", "C07"],
+    "coefficient_functions/heavy/kernels.py": ["C09", "C02", "C08", "C07"],
+    "coefficient_functions/asy/kernels.py": ["C08", "C07", "C12"],
     "coefficient_functions/intrinsic/kernels.py": ["C08", "C02", "C01"],
-    "coefficient_functions/partonic_channel.py": ["C03", "C01"],
-    "coefficient_functions/heavy/partonic_channel.py": ["C09", "C03", "C01"],
-    "input/compatibility.py": ["C06", "C20", "C07"],
+    "coefficient_functions/partonic_channel.py": ["C03", "C04", "C08"],
+    "coefficient_functions/heavy/partonic_channel.py": ["C09", "C03", "C08"],
+    "coefficient_functions/asy/partonic_channel.py": ["C08", "C03"],
+    "coefficient_functions/intrinsic/partonic_channel.py": ["C08", "C03"],
+    "coefficient_functions/light/f2_nc.py": ["C04", "C03", "C16"],
+    "coefficient_functions/heavy/f2_nc.py": ["C09", "C08", "C03"],
+    "input/compatibility.py": ["C06", "C12", "C09", "C20", "C07"],
     "observable_name.py": ["C16", "C07", "C14"],
     "coefficient_functions/splitting_functions/__init__.py": ["C05"],
 }
@@ -106,9 +111,14 @@ def gen(outpath, per_file):
         picked = cands[off::step][:per_file]
         for ln, col, old, new, kind in picked:
             res.append({"file": rel, "line": ln, "col": col, "old": old, "new": new, "kind": kind, "checks": checks, "n_candidates": len(cands)})
+    skip = set()
+    if os.environ.get("MUT_SKIP"):  # sites of an earlier batch
+        skip = {(json.loads(l)["file"], json.loads(l)["line"], json.loads(l)["col"]) for l in open(os.environ["MUT_SKIP"])}
+    res = [m for m in res if (m["file"], m["line"], m["col"]) not in skip]
+    pre = os.environ.get("MUT_PREFIX", "M")
     with open(outpath, "w") as f:
         for i, m in enumerate(res):
-            m["id"] = f"M{i:03d}"
+            m["id"] = f"{pre}{i:03d}"
             f.write(json.dumps(m) + "\n")
     print(f"{len(res)} mutants from {len(FILES)} files -> {outpath}")
 
